@@ -53,6 +53,13 @@ var commonAssumptions = []string{
 }
 
 var specs = map[string]*PropSpec{
+	"C07": {
+		Level: "exploration", QuickRuns: 40000, ThorRuns: 1200000, QuickCap: 150 * time.Second, ThorCap: 25 * time.Minute, QuickWD: 10000, ThorWD: 30000,
+		Rule: "one run = one generated CBE/CTE document after 0-4 storage faults (bit/byte flips, zeroed/duplicated ranges, truncation, misdirected or inserted bytes, overwritten length fields, garbage, empty) or a deep-nesting document, fed to every decode/unmarshal entry point that accepts it (from memory and through a SimReader delivery plan; occasionally to the other format's entry points) with a drawn template (nil, typed, unsupported kinds) and configuration, plus four marshal entry points on a drawn Go value (supported or containing chan/func/complex/unsafe.Pointer). Oracle: call returns within the watchdog, no panic escapes, the memory-capped worker stays alive. Non-trivial = the document was faulted or deep, or delivery was through a drawn reader plan, or a marshal call; distinct = hash of (document, entry, template, plan | value type, entry, config)",
+		Stubs: []string{"SimReader", "SimWriter (io.Writer and io.Writer+io.StringWriter flavours)", "SimDisk storage-fault model"}, Real: commonReal,
+		StepKeys: []string{"reader_calls", "writer_calls"},
+		Assumptions: []string{"watchdog is wall-clock: 10 s (quick) / 30 s (thorough) per library call whose normal cost is < 10 ms; worker address space capped at 8 GiB"},
+	},
 	"C28": {
 		Level: "exploration", QuickRuns: 2400, ThorRuns: 120000, QuickCap: 150 * time.Second, ThorCap: 25 * time.Minute, QuickWD: 10000, ThorWD: 30000,
 		Rule: "one run = one generated document (valid, or corrupted by 1-2 storage faults) x one reader entry point x config/template; evaluated under drawn delivery plans and, for small documents, every single split offset, every single (0,nil) position, data+EOF and 1-byte delivery; reference = from-memory twin on fresh instances. A case is non-trivial if the reader actually produced a short read, a (0,nil) read or data together with EOF; distinct = distinct (document, entry, config, plan) hashes",
